@@ -259,6 +259,21 @@ def mode_generate_draws(tier, seed):
                 else:
                     if r % 2 == 1 and key.endswith('_ANTI'):
                         fails.append({'check': 'odd number of antithetic draws accepted with a wrong shape', 'key': key, 'draws': r})
+            # several variables of DIFFERENT types, the dictionary of types filled in another order than the list of names: slice k
+            # of the table is what the generator advertised for names[k] delivers (deterministic Halton types, different bases)
+            trio = {'b_first': 'UNIFORMSYM_HALTON3', 'a_second': 'UNIFORM_HALTON2', 'c_third': 'UNIFORM_HALTON5'}
+            for names in (['a_second', 'b_first', 'c_third'], ['c_third', 'a_second', 'b_first']):
+                cases += 1
+                try:
+                    x = db.Database('c11', df.copy()).generate_draws(dict(trio), list(names), 6)
+                    for k_, nm_ in enumerate(names):
+                        if not np.array_equal(x[:, :, k_], cat[trio[nm_]].generator(nrows, 6)):
+                            fails.append({'check': 'slice k of generate_draws is the series advertised for names[k]', 'names': names,
+                                          'types': trio, 'slice': k_})
+                            break
+                except Exception as e:
+                    fails.append({'check': 'slice k of generate_draws is the series advertised for names[k]', 'names': names,
+                                  'got': f'{type(e).__name__}: {str(e)[:150]}'})
             # user generators: any shape other than (rows, draws) must be refused, the right one accepted
             shapes = [(nrows, r), (nrows, r + 1), (nrows + 1, r), (r, nrows), (nrows * r,), (nrows, r, 1)]
             for shp in shapes:
